@@ -70,6 +70,64 @@ class SimLock(object):
         self.release()
 
 
+class SimSemaphore(object):
+    """threading.Semaphore / BoundedSemaphore on the kernel (also stands in for such an object that the client
+    module created at import time, with the value it had then)."""
+    def __init__(self, value=1, bound=None):
+        self.w = World.current
+        self.value = value
+        self.bound = bound
+
+    def acquire(self, blocking=True, timeout=None):
+        k = self.w.k
+        k.yield_point(('prim', 'sem.acquire'))
+        if self.value > 0:
+            self.value -= 1
+            return True
+        if not blocking:
+            return False
+        ok = k.block(lambda: self.value > 0, None if timeout is None or timeout < 0 else timeout, ('prim', 'sem.wait'))
+        if ok:
+            self.value -= 1
+        return ok
+
+    def release(self, n=1):
+        if self.bound is not None and self.value + n > self.bound:
+            raise ValueError('Semaphore released too many times')
+        self.value += n
+        self.w.k.yield_point(('prim', 'sem.release'))
+
+    def __enter__(self):
+        self.acquire()
+        return self
+
+    def __exit__(self, *a):
+        self.release()
+
+
+class SimEvent(object):
+    def __init__(self, flag=False):
+        self.w = World.current
+        self.flag = flag
+
+    def is_set(self):
+        return self.flag
+
+    def set(self):
+        self.flag = True
+        self.w.k.yield_point(('prim', 'event.set'))
+
+    def clear(self):
+        self.flag = False
+
+    def wait(self, timeout=None):
+        k = self.w.k
+        k.yield_point(('prim', 'event.wait'))
+        if self.flag:
+            return True
+        return k.block(lambda: self.flag, timeout, ('prim', 'event.wait'))
+
+
 class SimThread(object):
     """Replacement for threading.Thread as used by supp.remote (target=, start, join, is_alive)."""
     def __init__(self, group=None, target=None, name=None, args=(), kwargs=None, daemon=None):
@@ -473,10 +531,31 @@ class World(object):
         remote.time = SimTime(w)
         # whatever else the client module took from `threading` by name (a Timer, say) runs on the virtual clock too
         self._saved_extra = {}
+        real = {'Timer': self._saved[9], 'Semaphore': threading.Semaphore, 'BoundedSemaphore': threading.BoundedSemaphore,
+                'Event': threading.Event}
+        lock_type = type(threading.Lock())
         for name, val in list(vars(remote).items()):
-            if val is self._saved[9] and name != 'Thread':
+            new = None
+            if val is real['Timer'] and name != 'Thread':
+                new = SimTimer
+            elif val is real['BoundedSemaphore']:
+                new = lambda value=1: SimSemaphore(value, value)
+            elif val is real['Semaphore']:
+                new = lambda value=1: SimSemaphore(value)
+            elif val is real['Event']:
+                new = SimEvent
+            # synchronisation objects the module created when it was imported
+            elif isinstance(val, real['BoundedSemaphore']):
+                new = SimSemaphore(val._value, val._initial_value)
+            elif isinstance(val, real['Semaphore']):
+                new = SimSemaphore(val._value)
+            elif isinstance(val, real['Event']):
+                new = SimEvent(val.is_set())
+            elif isinstance(val, lock_type):
+                new = SimLock(w)
+            if new is not None:
                 self._saved_extra[name] = val
-                setattr(remote, name, SimTimer)
+                setattr(remote, name, new)
         sys.argv = ArgvProxy(sys.argv)
         # threads and timers created by code running inside a simulated process (the kernel keeps the real class)
         threading.Thread = SimThread
